@@ -109,7 +109,43 @@ func (r *Report) Check(ok bool, construct, pos, okDetail, failDetail string) boo
 func (r *Report) Anchor(name string, found bool) bool {
 	if !found {
 		r.Fatal = append(r.Fatal, "unresolved anchor: "+name)
-		r.add(Undecided, "anchor:"+name, "", "anchor could not be resolved on the current tree", false)
+		msg := "anchor could not be resolved on the current tree"
+		if r.p != nil {
+			// a function of the same base name under another receiver / as a plain function: the likely new home
+			base := name
+			if i := strings.LastIndex(base, "."); i >= 0 {
+				base = base[i+1:]
+			}
+			base = strings.TrimSuffix(base, "$1")
+			var cands []string
+			for n := range r.p.Funcs {
+				b := n
+				if i := strings.LastIndex(b, "."); i >= 0 {
+					b = b[i+1:]
+				}
+				if b == base && n != name {
+					cands = append(cands, n)
+				}
+			}
+			for _, note := range r.p.InlineNotes {
+				// "T.name: inlined at ..." — a function outside the reference inventory that was dissolved into its callers
+				if i := strings.Index(note, ":"); i > 0 {
+					n := note[:i]
+					b := n
+					if j := strings.LastIndex(b, "."); j >= 0 {
+						b = b[j+1:]
+					}
+					if b == base && n != name {
+						cands = append(cands, n+" (not in the reference inventory, inlined into its callers)")
+					}
+				}
+			}
+			sort.Strings(cands)
+			if len(cands) > 0 && len(cands) <= 3 {
+				msg += " (a function of that name exists as " + strings.Join(cands, ", ") + ": if the anchor was renamed or turned into a method / a plain function without changing what it does, this report is a false alarm of the anchor limit, DESIGN.md §6)"
+			}
+		}
+		r.add(Undecided, "anchor:"+name, "", msg, false)
 	}
 	return found
 }
